@@ -1092,3 +1092,234 @@ def detect_case(case):
         return res
     finally:
         shutil.rmtree(root, ignore_errors=True)
+
+
+# ------------------------------------------------------------------------------------------------
+# C18 / C17: a `git` shim that perturbs the pacing of every child, and the run-twice comparison
+
+SHIM = r'''#!/bin/bash
+# PATH shim used by /verif: delays every git child and re-chunks its piped I/O through dd (each chunk is
+# forwarded at once, so request/response protocols keep working). MODE=chunk|slow|buffer
+R=@REAL@
+MODE=${FRRS_SHIM_MODE:-chunk}
+IN=${FRRS_SHIM_IN:-113}
+OUT=${FRRS_SHIM_OUT:-251}
+[ -n "$FRRS_SHIM_LOG" ] && echo "$*" >> "$FRRS_SHIM_LOG"
+case "$MODE" in slow) sleep 0.05 ;; *) sleep 0.01 ;; esac
+if [ -p /dev/stdin ] && [ -p /dev/stdout ]; then
+  dd bs=$IN status=none | "$R" "$@" | dd bs=$OUT status=none
+  exit ${PIPESTATUS[1]}
+elif [ -p /dev/stdout ]; then
+  if [ "$MODE" = buffer ]; then
+    T=$(mktemp); "$R" "$@" > "$T"; rc=$?; sleep 0.05; cat "$T"; rm -f "$T"; exit $rc
+  fi
+  "$R" "$@" | { [ "$MODE" = slow ] && sleep 0.2; dd bs=$OUT status=none; }
+  exit ${PIPESTATUS[0]}
+elif [ -p /dev/stdin ]; then
+  { [ "$MODE" = slow ] && sleep 0.2; dd bs=$IN status=none; } | "$R" "$@"
+  exit ${PIPESTATUS[1]}
+else
+  exec "$R" "$@"
+fi
+'''
+
+
+def make_shim(root):
+    d = os.path.join(root, 'shim')
+    os.makedirs(d, exist_ok=True)
+    real = shutil.which('git', path=GIT_ENV.get('PATH'))
+    p = os.path.join(d, 'git')
+    open(p, 'w').write(SHIM.replace('@REAL@', real))
+    os.chmod(p, 0o755)
+    return d
+
+
+def perturbed_env(root, k, mode='chunk'):
+    env = dict(GIT_ENV)
+    env['TZ'] = ['Asia/Kathmandu', 'Pacific/Kiritimati', 'America/St_Johns', 'UTC+13'][k % 4]
+    env['LANG'] = ['tr_TR.UTF-8', 'de_DE.ISO-8859-1', 'ja_JP.eucJP', 'C.UTF-8'][k % 4]
+    env['LC_ALL'] = ['C.UTF-8', 'POSIX', 'C', 'C.UTF-8'][(k // 4) % 4]
+    env['LANGUAGE'] = 'tr:de'
+    tmp = os.path.join(root, 'other tmp dir')
+    os.makedirs(tmp, exist_ok=True)
+    env['TMPDIR'] = tmp
+    env['PATH'] = make_shim(root) + os.pathsep + env.get('PATH', '')
+    env['FRRS_SHIM_MODE'] = mode
+    env['FRRS_SHIM_IN'] = str([1, 7, 113, 4096][k % 4])
+    env['FRRS_SHIM_OUT'] = str([251, 1, 65536, 13][k % 4])
+    env['RUST_MIN_STACK'] = '8388608'
+    env['FRRS_SHIM_LOG'] = os.path.join(root, 'shim.log')
+    return env
+
+
+def run_tool_prefixed(repo, args, env, prefix, timeout=600):
+    p = subprocess.run(prefix + [FR] + args, cwd=repo, stdout=subprocess.PIPE, stderr=subprocess.PIPE, env=env, timeout=timeout)
+    return p.returncode, p.stdout, p.stderr
+
+
+def result_digest(repo):
+    gd = git(repo, 'rev-parse', '--git-dir').decode().strip()
+    gd = gd if os.path.isabs(gd) else os.path.join(repo, gd)
+    rd = lambda n: (open(os.path.join(gd, 'filter-repo', n), 'rb').read() if os.path.exists(os.path.join(gd, 'filter-repo', n)) else None)
+    return {'refs': refs(repo), 'HEAD': head_of(repo) or git(repo, 'rev-parse', 'HEAD', check=False).decode().strip(),
+            'commit-map': rd('commit-map'), 'ref-map': rd('ref-map'), 'fast-export.filtered': rd('fast-export.filtered')}
+
+
+def twice_case(case):
+    root = tempfile.mkdtemp(prefix='frrs-twice-')
+    res = dict(id=case['id'], failures=[], dist={})
+    def count(k): res['dist'][k] = res['dist'].get(k, 0) + 1
+    def fail(msg): res['failures'].append(('C18', msg))
+    try:
+        k = case['id']
+        origin, marks = build_repo(case, root, bare=(k % 7 == 6))
+        aux = write_aux(case, root, marks)
+        a = origin
+        if k % 3 == 1 and k % 7 != 6:
+            a = os.path.join(root, 'cloneA')
+            subprocess.run(['git', 'clone', '-q', '--no-local', origin, a], check=True, env=GIT_ENV, stdout=subprocess.DEVNULL, stderr=subprocess.DEVNULL)
+            count('layout-clone-with-origin')
+        elif k % 7 == 6:
+            count('layout-bare')
+        else:
+            count('layout-plain')
+        b = os.path.join(root, 'copy B with blanks')
+        shutil.copytree(a, b, symlinks=True)
+        cli = ['--force'] + [x.replace('@AUX@', aux) for x in case['cli']]
+        rc1, _, err1 = run_tool_prefixed(a, cli, GIT_ENV, [])
+        prefix = ['nice', '-n', str(5 + k % 10)]
+        if shutil.which('taskset'):
+            prefix += ['taskset', '-c', str(k % (os.cpu_count() or 1))]
+        rc2, _, err2 = run_tool_prefixed(b, cli, perturbed_env(root, k, ['chunk', 'slow', 'buffer'][k % 3]), prefix)
+        count(f'shim-{["chunk", "slow", "buffer"][k % 3]}')
+        try:
+            calls = open(os.path.join(root, 'shim.log')).read().splitlines()
+        except OSError:
+            calls = []
+        res['dist']['git-children-paced-by-the-shim'] = len(calls)
+        if any('fast-import' in c for c in calls) and any('fast-export' in c for c in calls):
+            count('runs-with-exporter-and-importer-paced')
+        if (rc1 == 0) != (rc2 == 0):
+            fail(f'exit status differs between the two runs: {rc1} vs {rc2} (perturbed); stderr {err2.decode("utf-8", "replace")[-200:]}')
+            return res
+        if rc1 != 0:
+            count('both-runs-refused')
+            return res
+        count('tool-ok')
+        d1, d2 = result_digest(a), result_digest(b)
+        for key in d1:
+            if d1[key] != d2[key]:
+                what = ''
+                if isinstance(d1[key], dict):
+                    diff = sorted(set(d1[key].items()) ^ set(d2[key].items()))[:4]
+                    what = f': {diff}'
+                fail(f'{key} differs between two runs with identical options on identical copies (second run under perturbed TZ/LANG/TMPDIR, niceness, CPU pinning, paced children){what}')
+        if d1['commit-map'] and b'0000000000000000000000000000000000000000' in d1['commit-map']:
+            count('runs-with-pruned-commits')
+        if d1['ref-map']:
+            count('runs-with-renamed-refs')
+        return res
+    except subprocess.TimeoutExpired:
+        res['failures'].append(('C17', 'a run did not finish within 600 s'))
+        return res
+    except Exception as e:
+        import traceback
+        res['error'] = f'{type(e).__name__}: {e} {traceback.format_exc()[-300:]}'
+        return res
+    finally:
+        shutil.rmtree(root, ignore_errors=True)
+
+
+# ------------------------------------------------------------------------------------------------
+# C17: size sweeps of the real binary across the pipe-buffer boundaries, under paced children, with a wall-clock bound
+
+def sized_stream(n, blobsize, files_per_commit=1, branches=1):
+    """n commits, each adding `files_per_commit` new blobs of `blobsize` bytes (distinct contents)"""
+    out = [b'feature done\n']
+    mark = 0
+    prev = {}
+    for i in range(1, n + 1):
+        blobs = []
+        for j in range(files_per_commit):
+            mark += 1
+            head = b'%08d-%02d ' % (i, j)
+            data = (head + b'x' * max(0, blobsize - len(head)))[:max(blobsize, 1)] + b'\n'
+            out.append(b'blob\nmark :%d\ndata %d\n%s\n' % (mark, len(data), data))
+            blobs.append(mark)
+        mark += 1
+        br = b'refs/heads/b%d' % (i % branches)
+        msg = b'commit %03d\n' % (i % 1000)
+        out.append(b'commit %s\nmark :%d\ncommitter T <t@e> %d +0000\ndata %d\n%s' % (br, mark, 1000 + i, len(msg), msg))
+        if br in prev:
+            out.append(b'from :%d\n' % prev[br])
+        prev[br] = mark
+        for j, b in enumerate(blobs):
+            out.append(b'M 100644 :%d d%d/f%d_%d\n' % (b, i % 7, i, j))
+        out.append(b'\n')
+    out.append(b'done\n')
+    return b''.join(out)
+
+
+def sweep_cases(tier):
+    cases = []
+    k = 0
+    def add(mode, n, blobsize, shim, args=(), fpc=1):
+        nonlocal k
+        cases.append(dict(id=k, mode=mode, n=n, blobsize=blobsize, shim=shim, args=list(args), fpc=fpc)); k += 1
+    # requests in flight × bytes per reply around 64 KiB: 41-byte ids → 1598 per pipe; "<id> blob <size>\n" replies → ~1200 per pipe
+    objs = ([300, 1200, 1500, 1600, 1650, 2400, 2800, 2900, 2950, 3000, 3300, 4500, 6000, 12000] if tier == 'quick' else
+            [150, 300, 900] + list(range(1400, 3400, 50)) + [4500, 6000, 12000, 30000, 60000, 120000])
+    for o in objs:
+        add('detect', max(1, o // 4), 9, [None, 'chunk', 'slow', 'buffer'][len(cases) % 4])     # 4 objects per commit
+    for bs in ([700, 5000, 70000] if tier == 'quick' else [64, 700, 1300, 5000, 33000, 65536, 70000, 300000]):
+        add('detect', 400 if bs < 60000 else 40, bs, [None, 'chunk'][len(cases) % 2])
+    for n in ([100, 1000, 2500, 6000] if tier == 'quick' else [100, 500, 1000, 1500, 2500, 4000, 6000, 15000]):
+        add('analyze', n, 9, [None, 'slow', 'buffer', 'chunk'][len(cases) % 4])
+    for n in ([200, 2500] if tier == 'quick' else [200, 1200, 2500, 8000]):
+        add('filter', n, 9, [None, 'chunk'][len(cases) % 2])
+        add('filter', n, 9, ['slow', None][len(cases) % 2], ['--path-rename', 'd1/:moved/', '--max-blob-size', '5'])
+        add('filter', n, 9, [None, 'buffer'][len(cases) % 2], ['--path', 'd2/', '--prune-empty', 'always'])
+    for bs in ([70000, 300000] if tier == 'quick' else [4096, 65536, 70000, 300000, 3000000]):
+        add('filter', 30, bs, [None, 'chunk'][len(cases) % 2], ['--max-blob-size', '1000'])
+        add('filter', 30, bs, ['chunk', None][len(cases) % 2])
+    return cases
+
+
+def sweep_case(case):
+    root = tempfile.mkdtemp(prefix='frrs-sweep-')
+    res = dict(id=case['id'], failures=[], dist={})
+    def count(k, v=1): res['dist'][k] = res['dist'].get(k, 0) + v
+    limit = 900
+    try:
+        repo = os.path.join(root, 'repo')
+        subprocess.run(['git', 'init', '-q', repo], check=True, env=GIT_ENV, stdout=subprocess.DEVNULL)
+        git(repo, 'fast-import', '--quiet', input=sized_stream(case['n'], case['blobsize'], case.get('fpc', 1), 3))
+        git(repo, 'symbolic-ref', 'HEAD', 'refs/heads/b0')
+        git(repo, 'reset', '-q', '--hard')
+        nobj = len(git(repo, 'cat-file', '--batch-all-objects', '--batch-check').splitlines())
+        env = dict(GIT_ENV)
+        if case['shim']:
+            env = perturbed_env(root, case['id'], case['shim'])
+            env['FRRS_SHIM_IN'], env['FRRS_SHIM_OUT'] = ('4096', '4096') if nobj * max(case['blobsize'], 60) > 3_000_000 else ('113', '251')
+        args = {'detect': ['--detect-secrets'], 'analyze': ['--analyze', '--analyze-json'], 'filter': ['--force'] + case['args']}[case['mode']]
+        t0 = time.time()
+        try:
+            p = subprocess.run([FR] + args, cwd=repo, stdout=subprocess.PIPE, stderr=subprocess.PIPE, env=env, timeout=limit)
+        except subprocess.TimeoutExpired:
+            res['failures'].append(('C17', f'{case["mode"]} on {nobj} objects (blobs of {case["blobsize"]} bytes, children paced: {case["shim"]}) did not finish within {limit} s'))
+            return res
+        dt = time.time() - t0
+        count(f'{case["mode"]}-runs'); count('objects', nobj)
+        count('paced-' + str(case['shim']))
+        res['dist']['max-wall-s'] = int(dt + 1)
+        if p.returncode != 0:
+            res['failures'].append(('C17', f'{case["mode"]} on {nobj} objects exited with {p.returncode}: {p.stderr.decode("utf-8", "replace")[-200:]}'))
+        else:
+            count('tool-ok')
+        return res
+    except Exception as e:
+        import traceback
+        res['error'] = f'{type(e).__name__}: {e} {traceback.format_exc()[-300:]}'
+        return res
+    finally:
+        shutil.rmtree(root, ignore_errors=True)
